@@ -148,8 +148,30 @@ func TestVerifC04Batcher(t *testing.T) {
 				}
 			}
 			cfg := BatchConfig{FlushTimeout: 100 * time.Millisecond, MinSize: minSize, MaxSize: maxSize}
-			if err := cfg.Validate(); err != nil {
-				t.Fatalf("invalid generated config: %v", err)
+			// 1 case in 5: the limits come from the RAW space (max below min, negative values, no / negative timeout) and pass
+			// through the real BatchConfig.Validate(); the verdict is compared with the regenerated rules, an ACCEPTED
+			// configuration runs the script below under every oracle
+			raw := c%5 == 3 && c%10 != 9
+			if raw {
+				cfg.MinSize = int64([]int{-2, 0, 1, 2, 3, 5, 8, 10}[rnd.IntN(8)])
+				cfg.MaxSize = int64(rnd.IntN(14) - 1)
+				cfg.FlushTimeout = []time.Duration{100 * time.Millisecond, 100 * time.Millisecond, 100 * time.Millisecond, 0, -time.Millisecond}[rnd.IntN(5)]
+				minSize, maxSize = cfg.MinSize, cfg.MaxSize
+			}
+			verr := cfg.Validate()
+			if raw {
+				out.Linef("case %d raw=1", c)
+				out.Linef("op cfgraw ft=%d min=%d max=%d", int64(cfg.FlushTimeout), cfg.MinSize, cfg.MaxSize)
+				out.Linef("obs valid=%d", vB(verr == nil))
+				if verr != nil {
+					out.Linef("stat raw_config_rejected 1")
+					out.Linef("end")
+					out.Flush()
+					return
+				}
+				out.Linef("stat raw_config_accepted 1")
+			} else if verr != nil {
+				t.Fatalf("invalid generated config: %v", verr)
 			}
 			rec := &vRec{}
 			if c%10 == 9 {
@@ -182,7 +204,9 @@ func TestVerifC04Batcher(t *testing.T) {
 			if err := qb.Start(context.Background(), componenttest.NewNopHost()); err != nil {
 				t.Fatal(err)
 			}
-			out.Linef("case %d", c)
+			if !raw {
+				out.Linef("case %d", c)
+			}
 			out.Linef("op cfg min=%d max=%d", minSize, maxSize)
 			out.Linef("obs done")
 			if vSamples {
